@@ -328,8 +328,24 @@ def run_case(rng, ctx, K, mon):
             cfg['h'][None, :] * rng.uniform(-5, 20, size=(npix, 1))
         ctx.hit('detector above beam')
     args = build_args(rng, cfg, det, layout, f32, units)
-    mon.meta = {'family': 'direct', 'tilt': cfg['tilt'], 'gmag': cfg['gmag'], 'layout': layout,
-                'axis_aligned': axis}
+    per_pixel_b1 = layout in ('per_pixel', '2d', 'binned') and npix > 1 and rng.random() < 0.3
+    if per_pixel_b1:
+        # one incident beam per pixel: some perpendicular to gravity, the others tilted up OR down
+        up = -geom.v3(cfg['ghat'])
+        sgn = 1.0 if rng.random() < 0.5 else -1.0  # all tilted beams on the same side
+        tl = np.where(rng.random(npix) < 0.5, 0.0, cfg['tilt'])
+        if cfg['tilt'] > 0:
+            tl[rng.integers(0, npix)] = cfg['tilt']
+            tl[(rng.integers(0, npix) + 1) % npix if npix > 1 else 0] = 0.0 if rng.random() < 0.7 else cfg['tilt']
+        b1s = np.array([(cfg['L1'] * (np.cos(si.LD(t)) * geom.v3(cfg['h']) + sgn * np.sin(si.LD(t)) * up)).astype(np.float64)
+                        for t in tl])
+        fb = float(si.lookup(sc.Unit(units[0]))[0])
+        args['incident_beam'] = sc.vectors(dims=['pixel'], values=b1s / fb, unit=units[0])
+        ctx.hit('per-pixel incident beams ' + ('tilted up' if sgn > 0 else 'tilted down'))
+    if per_pixel_b1:
+        cfg = dict(cfg, tilt=float(np.max(tl)))
+    mon.meta = {'family': 'direct', 'tilt': float(cfg['tilt']), 'gmag': cfg['gmag'], 'layout': layout,
+                'axis_aligned': axis, 'per_pixel_incident': bool(per_pixel_b1)}
     mon.path = None
     try:
         K.scattering_angles_with_gravity(**args)
@@ -385,7 +401,7 @@ def requirements(tier):
     return {
         'events': {'scattering_angles_with_gravity': 200, 'path.generic': 50, 'path.orthogonal': 30,
                    'scattering_angle_in_yz_plane': 10, 'yz.refused': 10, 'continuity': 50, 'limit': 10},
-        'forced': [f'tilt:{t:g}' for t in TILTS] + [f'|g|:{g:g}' for g in GMAGS] + ['detector above beam'],
+        'forced': [f'tilt:{t:g}' for t in TILTS] + [f'|g|:{g:g}' for g in GMAGS] + ['detector above beam', 'per-pixel incident beams tilted up', 'per-pixel incident beams tilted down'],
     }
 
 
